@@ -114,7 +114,78 @@ def check_seq(prop, tier, seed, scale=1.0):
     return 1 if n_unknown else 0
 
 
+ASSUME_BUF = [
+    "the flat byte-sequence model and capacity-tree model in sim/buf/src/{read,write}.rs state the documented Buf/BufMut semantics",
+    "harness Buf/BufMut fakes (SegBuf, SegDefault, SegBufMut) are lawful implementations of the traits",
+    "seeded search: a clean batch is evidence over the sampled nests and operation sequences, not a proof",
+]
+REAL_VS_STUB_BUF = {
+    "real": "every Buf/BufMut implementor and adapter in /repo/src/buf, Bytes, BytesMut, compiled from the working tree (debug and release variants)",
+    "stub": "leaf sources/targets SegBuf/SegDefault/SegBufMut and (byzantine mode) LyingBuf/LyingIter/LyingOwner are harness fakes; global allocator = SimAlloc",
+}
+RULES["buf"] = ("one case = one seeded nest (plan of depth <=4 over all leaf kinds and adapters, all chunk segmentations incl. empty chunks) "
+                "plus <=N cursor/write operations with boundary-biased arguments; distinct = distinct (nest shape hash, per-step result digest); "
+                "non-trivial = nest depth >= 2 or a typed value straddled a chunk boundary")
+
+# property -> list of (profile, tag, quick (runs, steps), thorough (runs, steps))
+BUF = {
+    "C09": [("laws", 109, (200000, 30), (6000000, 60))],
+    "C10": [("typed", 110, (240000, 12), (8000000, 30))],
+    "C11": [("write", 111, (200000, 30), (6000000, 60))],
+    "C12": [("adapters", 112, (120000, 30), (3000000, 60)), ("write", 212, (100000, 30), (3000000, 60))],
+}
+
+
+def check_buf(prop, tier, seed, scale=1.0):
+    t0 = time.time()
+    variants = ["vdebug", "vrelease"]
+    for v in variants:
+        C.build(v, ("buf",))
+    found, sums, crashes = [], [], 0
+    per_variant = {}
+    specs = BUF[prop]
+    steps_max = 0
+    for (profile, tag, quick, thorough) in specs:
+        runs, steps = quick if tier == "quick" else thorough
+        runs = max(100, int(runs * scale))
+        steps_max = max(steps_max, steps)
+        for v in variants:
+            r = C.run_batch("buf", v, seed, tag, profile, runs, steps)
+            found += [(v, rec) for rec in r["violations"]]
+            sums += r["summaries"]
+            crashes += r["crashes"]
+            per_variant[v + ":" + profile] = sum(s.get("runs", 0) for s in r["summaries"])
+    n_unknown = handle_violations(prop, "buf", found, tier)
+    tot = C.merge_summaries(sums)
+    wall = time.time() - t0
+    cov = {
+        "evaluations": tot["runs"],
+        "distinct_nontrivial": len(tot["nontrivial"]),
+        "rule": RULES["buf"].replace("<=N", "<=%d" % steps_max),
+        "samples": tot["samples"][:2] or [{"note": "no sample recorded"}],
+        "steps": tot["steps"],
+        "simulated_time": "%d cursor/write operations (logical steps)" % tot["steps"],
+        "runs_per_hour": int(tot["runs"] / max(wall, 1e-6) * 3600),
+        "seeds": {"root": seed, "tags": [s[1] for s in specs], "derivation": "run seed = mix(root, tag, index)"},
+        "variants": per_variant,
+        "fault_counts": {
+            "short_reads_writes": "every run: sources/targets are cut into chunks by the seed (incl. empty chunks)",
+            "values_straddling_chunk_boundaries": tot.get("x_straddles", 0),
+            "shortfalls_fired": tot.get("x_shortfalls", 0),
+            "panics_caught": tot["panics"],
+            "worker_crashes": crashes,
+        },
+        "probes": tot["probes"],
+        "distinct_nest_shapes": len(tot["state_sample"]),
+        "real_vs_stub": REAL_VS_STUB_BUF,
+    }
+    C.write_evidence(prop, tier, seed, "exploration", cov, wall, n_unknown, ASSUME_BUF)
+    print("%s: %d runs, %d steps, %d distinct non-trivial, %.1fs, violations=%d" % (prop, tot["runs"], tot["steps"], len(tot["nontrivial"]), wall, n_unknown), flush=True)
+    return 1 if n_unknown else 0
+
+
 CHECKS = {p: check_seq for p in SEQ}
+CHECKS.update({p: check_buf for p in BUF})
 
 
 def setup():
